@@ -653,11 +653,12 @@ class WSGIApp:
             limit, cursor = int(limit_str), int(cursor_str)
             if limit < 0 or cursor < 0:
                 raise ValueError
+            start_index = cursor
+            end_index = cursor + limit
+            # islice() raises a ValueError for indices beyond sys.maxsize
+            paginated_slice = itertools.islice(iterator, start_index, end_index)
         except ValueError:
             raise BadRequest("Cursor and limit must be positive integers!")
-        start_index = cursor
-        end_index = cursor + limit
-        paginated_slice = itertools.islice(iterator, start_index, end_index)
         return paginated_slice, end_index
 
     def _get_shells(self, request: Request) -> Tuple[Iterator[model.AssetAdministrationShell], int]:
